@@ -730,13 +730,23 @@ fn tx_oracles(w: &mut World, st: &mut St, n: usize, f: &TxFrame) -> Result<(), V
             st.incomplete_tx[n] = None;
         }
         w.stats.inc("frag.tx-datagrams-completed");
-        if !w.props.has("C12") {
+        if !w.props.has("C12") && !w.props.has("C08") && !w.props.has("C10") {
             return Ok(());
         }
         let fake = Ip { src: acc.src, dst: acc.dst, proto: acc.proto, hop: acc.hop, v4: None, hbh: None, payload: acc.bytes, hdr_len: 20 };
         let l4 = match decode_l4(&fake, &w.views[n].tx_verify) {
             Ok(l4) => l4,
             Err(e) => {
+                // the transport checksum of a fragmented datagram can only be judged after reassembly
+                if e.kind == ErrKind::Checksum && w.props.has("C08") {
+                    return Err(viol("C08", "emitted-valid", format!("C08.emit/reassembled:{}", e.layer), format!("the fragments emitted for ident {} reassemble into a datagram that fails the independent checksum: {} {}", v.ident, e.layer, e.msg)));
+                }
+                if w.props.has("C10") {
+                    return Err(viol("C10", "wellformed", format!("C10.fragments/reassembled-invalid:{}", e.layer), format!("the fragments emitted for ident {} do not reassemble into a valid datagram: {} {}", v.ident, e.layer, e.msg)));
+                }
+                if !w.props.has("C12") {
+                    return Ok(());
+                }
                 return Err(viol("C12", "tx-fragments", "C12.tx/reassembled-invalid", format!("the fragments emitted for ident {} do not reassemble into a valid datagram: {} {}", v.ident, e.layer, e.msg)));
             }
         };
@@ -746,7 +756,7 @@ fn tx_oracles(w: &mut World, st: &mut St, n: usize, f: &TxFrame) -> Result<(), V
                 L4::Icmp4(i) | L4::Icmp6(i) => i.body.clone(),
                 _ => vec![],
             };
-            if payload != d.payload {
+            if payload != d.payload && w.props.has("C12") {
                 return Err(viol("C12", "tx-fragments", "C12.tx/reassembled-differs", format!("socket {}{} datagram #{}: the fragments on the wire reassemble into {} bytes that differ from the {} bytes the socket accepted", w.nodes[n].name, si, d.seq, payload.len(), d.payload.len())));
             }
         }
